@@ -361,7 +361,7 @@ restart:
       extension_item* extension = bucket.head.load(std::memory_order_relaxed);
       if (extension) {
         // signal which item we are deleting
-        bucket.state.store(locked_state.set_delete_marker(i + 1), std::memory_order_relaxed);
+        bucket.state.store(locked_state.set_delete_marker(i + 1), std::memory_order_release);
 
         auto k = extension->key.load(std::memory_order_relaxed);
         auto v = extension->value.load(std::memory_order_relaxed);
@@ -386,7 +386,7 @@ restart:
       } else {
         if (i != item_count - 1) {
           // signal which item we are deleting
-          bucket.state.store(locked_state.set_delete_marker(i + 1), std::memory_order_relaxed);
+          bucket.state.store(locked_state.set_delete_marker(i + 1), std::memory_order_release);
 
           auto k = bucket.key[item_count - 1].load(std::memory_order_relaxed);
           auto v = bucket.value[item_count - 1].load(std::memory_order_relaxed);
@@ -459,7 +459,7 @@ void vyukov_hash_map<Key, Value, Policies...>::erase(iterator& pos) {
   if (extension) {
     auto locked_state = pos.current_bucket_state.locked();
     auto marked_state = locked_state.set_delete_marker(pos.index + 1);
-    pos.current_bucket->state.store(marked_state, std::memory_order_relaxed);
+    pos.current_bucket->state.store(marked_state, std::memory_order_release);
     assert(pos.current_bucket->state.load().is_locked());
 
     auto k = extension->key.load(std::memory_order_relaxed);
@@ -492,7 +492,7 @@ void vyukov_hash_map<Key, Value, Policies...>::erase(iterator& pos) {
       // signal which item we are deleting
       auto locked_state = pos.current_bucket_state.locked();
       auto marked_state = locked_state.set_delete_marker(pos.index + 1);
-      pos.current_bucket->state.store(marked_state, std::memory_order_relaxed);
+      pos.current_bucket->state.store(marked_state, std::memory_order_release);
       assert(pos.current_bucket->state.load().is_locked());
 
       auto k = pos.current_bucket->key[max_index].load(std::memory_order_relaxed);
